@@ -13,7 +13,9 @@ RULE = ("real sockets, no scripted transport: Valve queries against an in-proces
         "without truncation by the receive buffer; refused TCP connections; a TCP peer that writes nothing / 1 / 40 / 1500 bytes and then "
         "closes (everything written is delivered) or stalls with the connection open (the read fails within the read timeout, however "
         "much of a reply had arrived); the Eco query through the HTTP client against a peer that is mute / stalls in the head / in the body, "
-        "read timeout 150 ms with write and connect timeouts of 2 s (one read timeout must bound the wait). Non-trivial = every case.")
+        "read timeout 150 ms with write and connect timeouts of 2 s (one read timeout must bound the wait); every UDP family (Quake, GameSpy 1/2/3, "
+        "Unreal 2, Bedrock, Valve) on real sockets against a server replaying a valid exchange up to a cut point (result, requests seen, wall "
+        "clock vs the model of the cut exchange; read timeout 60 ms, write / connect timeouts of seconds). Non-trivial = every case.")
 ASSUMPTIONS = ["scheduling slack of 250 ms + 60 ms per timed-out step is allowed on top of the bound",
                "that SO_RCVTIMEO / connect_timeout are honoured by the OS is measured here, not proved"]
 TRUSTED = ["Lean theorems C12_valve_blocking_bound, C12_gs2_blocking_bound, C12_minecraft_java_blocking_bound / _silent_server give the number of "
@@ -107,7 +109,48 @@ def run(rep, tier, seed, replay=None):
                         cid = f"t{k}"
                         cases.append(f"{cid} realtcp {fam} {ms} {mode} {prefix}")
                         meta[cid] = ("tcp", ms, 0, 0)
-    model = vlib.run_model(cases)
+    # ---- every UDP family on real sockets: a loopback server replays the scripted exchange (answering the n-th request
+    # with the deliveries the model consumed after its n-th send) up to a cut point and then falls silent; result,
+    # requests seen by the server and wall clock against the model of the same (cut) exchange
+    famreal = {}
+    if replay is None:
+        for fam in ("quake", "gs1", "gs2", "gs3", "unreal2", "mcbedrock", "valve"):
+            d = netprops.FAMILIES.get(fam)
+            if d is None:
+                continue
+            vs = [v for v in netprops.valid_cases(fam, seed + 12, 60) if not v.notwf and v.want.startswith("OK")]
+            vs = [v for v in vs if len(v.case().script) == 1 and v.case().script[0] != "X" and not v.case().opts
+                  and all(x is None or len(x) <= 1400 for x in v.case().script[0])]
+            inner = []
+            for bi, v in enumerate(vs[: (2 if tier == "quick" else 10)]):
+                n = len(v.case().script[0])
+                for cut in sorted({0, n // 2, max(n - 1, 0), n}):
+                    for r in (0, 1):
+                        c = v.case()
+                        c.script[0] = c.script[0][:cut]
+                        c.args[d["retries"]] = str(r)
+                        inner.append((f"{v.id}c{cut}r{r}", c, fam))
+            im = vlib.run_model([c.line(i + "i") for i, c, _ in inner])
+            for k2, (i, c, fam_) in enumerate(inner):
+                mo = im.get(i + "i", "")
+                tr = vlib.trace_of(mo)
+                ds = c.script[0]
+                bursts, used = [], 0
+                for e in tr:
+                    if e.startswith("S"):
+                        bursts.append(0)
+                    elif e.startswith("R") and used < len(ds) and bursts:
+                        used += 1
+                        bursts[-1] += 1
+                famv = "v6" if k2 % 2 else "v4"
+                ms = 60
+                dl = ",".join("~" if x is None else x.hex() for x in ds) or "."
+                line = f"{i} realfam {famv} {ms} {'.'.join(map(str, bursts)) or '-'} {dl} " + c.line("x").split(" ", 1)[1]
+                cases.append(line)
+                blocked = sum(1 for e in tr if (e.startswith("R") and e.endswith(":T")) or (e.startswith("S") and e.endswith("!")))
+                sent = [dd for (_, _, dd, failed) in vlib.sends_of(mo) if not failed]
+                famreal[i] = (vlib.result_of(mo), sent, blocked, ms, fam_)
+    model = vlib.run_model([c for c in cases if c.split(" ")[1] != "realfam"])
     impl, panics = vlib.run_impl(cases, tag="c12")
     for c in cases:
         cid = c.split(" ", 1)[0]
@@ -115,6 +158,20 @@ def run(rep, tier, seed, replay=None):
         rep.seen(c, i)
         rep.count("kind:" + c.split(" ")[1])
         rep.oracle_failures += [(s, d, c, i) for s, d in netprops.crash_oracle(c, i, m, panics.get(cid, ""))]
+        if cid in famreal:
+            want_res, want_sent, blocked, ms, fam_ = famreal[cid]
+            ipf = i.split(" ;; ")
+            rep.count("realfam:" + fam_)
+            got_sent = [x for x in (ipf[1].split(",") if len(ipf) > 1 and ipf[1] else [])]
+            if ipf[0] != want_res or got_sent != want_sent:
+                rep.divergences.append((c, f"{want_res} ;; {','.join(want_sent)}", i, "real sockets vs the model of the same exchange"))
+            if len(ipf) > 2 and ipf[2].startswith("T"):
+                elapsed = int(ipf[2][1:])
+                bound = blocked * ms + SLACK_MS + PER_STEP_MS * blocked
+                rep.count("timed-out-steps:" + str(blocked))
+                if elapsed > bound:
+                    rep.oracle_failures.append(("timeout-not-bounding:realfam:" + fam_, f"took {elapsed} ms; {blocked} blocking step(s) may time out at {ms} ms each: bound {bound} ms", c, i))
+            continue
         mp, ip = m.split(" ;; "), i.split(" ;; ")
         if mp[0] != ip[0] or (len(mp) > 1 and len(ip) > 1 and mp[1] != ip[1]):
             rep.divergences.append((c, m, i, panics.get(cid, "")))
